@@ -10,6 +10,8 @@ from ..model import types as T
 from ..model.types import render, witness
 
 PROP = 'C05'
+PRELUDE = ('struct HT(a: int)\nfn nf0()->int{ 1 } fn nf1(x: int)->int{ x } fn nf2(x: int, y: int)->int{ x } fn nf12(x: int, y: int ?= 1)->int{ x } '
+           'fn nf01(x: int ?= 1)->int{ x } fn nfs(x: str)->int{ 1 }\n')
 
 
 def nat(n, *a):
@@ -244,9 +246,11 @@ def extra_programs(tier):
             yield gid, '%s|levels-in-function=%s' % ('+'.join(s), ''.join(map(str, lv))), [], [('all-resolvable-calls', text, 'c%d' % gid, exp)]
     # generic host: the caller's type parameter is an argument type
     HOST = ('cmp', 'HostT', ())
-    top_pool = ['g_T', 'g_T_T', 'n_int', 'n_str', 'g_seqT', 'g_A_B', 'g_T_int']
+    ALPHA['g_T_oT'] = ('g_T_oT', ['T'], [(V('T'), False), (V('T'), True)])      # only used here: the default is an int literal
+    DEFAULTS[V('T')] = '0'
+    top_pool = ['g_T', 'g_T_T', 'n_int', 'n_str', 'g_seqT', 'g_A_B', 'g_T_int', 'g_T_oT']
     nested_pool = [('nh_T', [], [(HOST, False)]), ('nh_T_T', [], [(HOST, False), (HOST, False)]), ('nh_seqT', [], [(nat('Sequence', HOST), False)]), ('nh_T_int', [], [(HOST, False), ('int', False)])]
-    hcalls = [(HOST,), (HOST, HOST), (nat('Sequence', HOST),), (HOST, 'int'), ('int',)]
+    hcalls = [(HOST,), (HOST, HOST), (nat('Sequence', HOST),), (HOST, 'int'), ('int',), ('int', HOST)]
     hwit = {HOST: 'x', nat('Sequence', HOST): '[x]', 'int': '1'}
     for kt in (0, 1, 2):
         for ts in itertools.combinations(top_pool, kt):
@@ -280,6 +284,37 @@ def extra_programs(tier):
                         yield gid, 'host<%s>|top=%s|nested=%s' % (gname, '+'.join(ts), '+'.join(n[0] for n in ns)), [], calls
 
 
+def fn_programs(tier):
+    """overloads whose parameter is a function type, called with named functions (with and without optional parameters) and lambdas:
+    a candidate matches only if the supplied function can be called with exactly the parameter's arity"""
+    gid = 3 * 10 ** 6
+    FN = lambda ps, r: ('fn', tuple(ps), r)
+    alpha = [('n_fn0', [], [(FN([], 'int'), False)]), ('n_fn1', [], [(FN(['int'], 'int'), False)]), ('n_fn2', [], [(FN(['int', 'int'], 'int'), False)]),
+             ('n_fn1s', [], [(FN(['str'], 'int'), False)]), ('g_fnT', ['T'], [(FN([V('T')], 'int'), False)]), ('g_fnTU', ['T', 'U'], [(FN([V('T')], V('U')), False)]),
+             ('g_fn0T', ['T'], [(FN([], V('T')), False)])]
+    named = {'nf0': ('named', (), 0, 'int'), 'nf1': ('named', ('int',), 0, 'int'), 'nf2': ('named', ('int', 'int'), 0, 'int'), 'nf12': ('named', ('int', 'int'), 1, 'int'),
+             'nf01': ('named', ('int',), 1, 'int'), 'nfs': ('named', ('str',), 0, 'int'), '(q: int)->{ 1 }': ('named', ('int',), 0, 'int'), '()->{ 1 }': ('named', (), 0, 'int'),
+             '(q: int, r: int)->{ 1 }': ('named', ('int', 'int'), 0, 'int')}
+
+    def rt(t):
+        if isinstance(t, tuple) and t[0] == 'var':
+            return t[1]
+        if isinstance(t, tuple) and t[0] == 'fn':
+            return '(%s)->(%s)' % (', '.join(rt(a) for a in t[1]), rt(t[2]))
+        return render(t)
+    for k in (1, 2, 3):
+        for sset in itertools.combinations(alpha, k):
+            for order in (itertools.permutations(sset) if k <= 2 or tier != 'quick' else [sset]):
+                gid += 1
+                name = 'ovf%d' % gid
+                decls = ''.join('fn %s%s(f: %s)->str{ "%s" } ' % (name, ('<%s>' % ', '.join(g)) if g else '', rt(ps[0][0]), key) for key, g, ps in order)
+                cands = list(sset)
+                calls = [('decl', decls, None, 'DECL')]
+                for j, (aexpr, at) in enumerate(named.items()):
+                    calls.append(('fn-arg:%s' % aexpr, 'let c%d_%d = %s(%s);' % (gid, j, name, aexpr), 'c%d_%d' % (gid, j), resolve(cands, (at,))))
+                yield gid, 'fn-typed|%s|order=%s' % ('+'.join(x[0] for x in sset), ','.join(x[0] for x in order)), [], calls
+
+
 def render_call(c):
     return '(' + ', '.join(render(a) for a in c) + ')'
 
@@ -304,7 +339,7 @@ def std_programs(tier):
 
 
 def _run_groups(groups):
-    steps = [{'feed': 'struct HT(a: int)\n'}]
+    steps = [{'feed': PRELUDE}]
     index = []
     for gid, label, setup, calls in groups:
         for t in setup:
@@ -354,7 +389,7 @@ def run(tier):
                  'declaration orders x 4 placements over scope levels x alpha-renamings x a never-matching addition, and 3 standard-library '
                  'names with 0-2 user overloads; every call tuple of a %d-tuple pool; reference = non-generic matches, else generic matches; '
                  'one = its tag, several = AmbiguousOverload, none = NoOverload; non-trivial = distinct (set, order, placement, call)' % (len(ALPHABET), len(CALLS)))
-    groups = list(programs(tier)) + list(std_programs(tier)) + list(extra_programs(tier))
+    groups = list(programs(tier)) + list(std_programs(tier)) + list(extra_programs(tier)) + list(fn_programs(tier))
     rep.bounds['overload_groups'] = len(groups)
     rep.bounds['calls'] = sum(len(g[3]) for g in groups)
     results = {}
@@ -386,16 +421,16 @@ def run(tier):
                 rep.nontrivial.add(sig)
                 if kind not in ('ok', 'cerr'):
                     rep.fail(Failure(PROP, sig + '|' + kind, {'text': text, 'setup': setup}, 'a verdict', obs,
-                                     {'id': 0, 'limits': {}, 'steps': [{'feed': 'struct HT(a: int)\n'}] + [{'feed': t} for t in setup] + [{'feed': text}]}))
+                                     {'id': 0, 'limits': {}, 'steps': [{'feed': PRELUDE}] + [{'feed': t} for t in setup] + [{'feed': text}]}))
                 elif key in outcomes_per_set and outcomes_per_set[key][0] != obs:
                     rep.fail(Failure(PROP, sig + '|outcome-depends-on-order-placement-or-names', {'text': text, 'setup': setup, 'other': outcomes_per_set[key][1]},
                                      outcomes_per_set[key][0], obs,
-                                     {'id': 0, 'limits': {}, 'steps': [{'feed': 'struct HT(a: int)\n'}] + [{'feed': t} for t in setup] + [{'feed': text}, {'op': 'inst'}, {'op': 'get', 'name': bname}]}))
+                                     {'id': 0, 'limits': {}, 'steps': [{'feed': PRELUDE}] + [{'feed': t} for t in setup] + [{'feed': text}, {'op': 'inst'}, {'op': 'get', 'name': bname}]}))
                 else:
                     outcomes_per_set.setdefault(key, (obs, label))
                 continue
             rep.nontrivial.add(sig)
-            job = {'id': 0, 'limits': {}, 'steps': [{'feed': 'struct HT(a: int)\n'}] + [{'feed': t} for t in setup] + [{'feed': text}, {'op': 'inst'}, {'op': 'get', 'name': bname}]}
+            job = {'id': 0, 'limits': {}, 'steps': [{'feed': PRELUDE}] + [{'feed': t} for t in setup] + [{'feed': text}, {'op': 'inst'}, {'op': 'get', 'name': bname}]}
             if kind == 'cerr':
                 got = v
             elif kind == 'ok':
